@@ -18,6 +18,7 @@ use fe2o3_amqp::types::definitions::SenderSettleMode;
 use fe2o3_amqp::types::messaging::{AmqpValue, Body};
 use fe2o3_amqp::types::primitives::{Binary, Value};
 use fe2o3_amqp::{Receiver, Sender};
+use std::pin::Pin;
 
 use crate::chooser::{choice, pick};
 use crate::msgs::{self, Msg};
@@ -519,7 +520,7 @@ async fn run_send(enumerated: bool) {
     // deliveries of earlier `send_batchable` calls whose outcomes are still awaited while sends are
     // cancelled: a dropped send must leave them alone
     let n_pre = if choice(2) == 0 { 0 } else { 1 + choice(3) as u64 };
-    let pre: Vec<Msg> = (0..n_pre).map(|i| message(50 + i, 1)).collect();
+    let mut pre: Vec<Msg> = (0..n_pre).map(|i| message(50 + i, 1)).collect();
     let noise = choice(3) == 0;
     if noise {
         // the listener gets a sender of its own: its observation points are not the ones under test
@@ -571,29 +572,6 @@ async fn run_send(enumerated: bool) {
                 }
                 let held: Rc<RefCell<std::collections::VecDeque<fe2o3_amqp::Delivery<Body<Value>>>>> = Rc::new(RefCell::new(std::collections::VecDeque::new()));
                 let stop_late = Rc::new(std::cell::Cell::new(false));
-                {
-                    let (held, stop_late, disposer) = (held.clone(), stop_late.clone(), r.disposer());
-                    sim::spawn("listener-late-accepter", async move {
-                        // (bounded: a run that is stuck for another reason must not be kept busy by this task)
-                        let mut accepted = 0u64;
-                        let mut rounds = 0u32;
-                        while !stop_late.get() && accepted < n_pre && rounds < 400 {
-                            rounds += 1;
-                            sim::sleep_ms(pick(&[1u64, 1, 2, 5, 20])).await;
-                            if choice(3) == 1 {
-                                continue;
-                            }
-                            let h = held.borrow_mut().pop_front();
-                            if let Some(h) = h {
-                                if disposer.accept(&h).await.is_err() {
-                                    break;
-                                }
-                                accepted += 1;
-                                sim::probe("outstanding-delivery-settled-between-sends");
-                            }
-                        }
-                    });
-                }
                 let mut steps = manual_steps2.clone().unwrap_or_default().into_iter();
                 let mut granted_left = 0u32;
                 if manual_steps2.is_some() {
@@ -609,6 +587,28 @@ async fn run_send(enumerated: bool) {
                     if sim::op("set_credit", r.set_credit(credit)).await.is_none() {
                         return;
                     }
+                }
+                // (the disposer takes over the credit mode the receiver has at this moment)
+                {
+                    let (held, stop_late, disposer) = (held.clone(), stop_late.clone(), r.disposer());
+                    sim::spawn("listener-late-accepter", async move {
+                        // (when there is nothing to accept it sleeps longer: a run that is stuck for another
+                        // reason is not kept busy by this task)
+                        while !stop_late.get() {
+                            if held.borrow().is_empty() {
+                                sim::sleep_ms(25).await;
+                                continue;
+                            }
+                            sim::sleep_ms(pick(&[1u64, 1, 2, 5, 20])).await;
+                            let h = held.borrow_mut().pop_front();
+                            if let Some(h) = h {
+                                if disposer.accept(&h).await.is_err() {
+                                    break;
+                                }
+                                sim::probe("outstanding-delivery-settled-between-sends");
+                            }
+                        }
+                    });
                 }
                 loop {
                     if manual_steps2.is_some() && granted_left == 0 {
@@ -712,8 +712,10 @@ async fn run_send(enumerated: bool) {
             None => return,
         }
     }
+    let mut send_order: Vec<u64> = Vec::new();
     let mut pre_futs = Vec::new();
     for (i, m) in pre.iter().enumerate() {
+        send_order.push(50 + i as u64);
         match sim::op(&format!("send_batchable (outstanding) {}", i), s.send_batchable(m.clone())).await {
             Some(Ok(f)) => pre_futs.push((50 + i as u64, f)),
             Some(Err(e)) => {
@@ -734,11 +736,67 @@ async fn run_send(enumerated: bool) {
     let by_ref = choice(3) == 0;
     sim::append_config(&format!(" send_ref={}", by_ref));
     let sendables: Vec<fe2o3_amqp::Sendable<Body<Value>>> = msgs_v.iter().map(|m| fe2o3_amqp::Sendable::from(m.clone())).collect();
+    // the outcomes of the earlier batchable sends are looked at after every send, cancelled or not:
+    // the receiver accepts everything, so whatever resolves must say so. (Only a delivery left
+    // unfinished on the wire - the recorded finding - can make the receiver give up the link.)
+    let mut pre_pending: Vec<(u64, Pin<Box<fe2o3_amqp::link::delivery::DeliveryFut<Result<fe2o3_amqp::types::messaging::Outcome, fe2o3_amqp::link::SendError>>>>)> = pre_futs.into_iter().map(|(u, f)| (u, Box::pin(f))).collect();
+    macro_rules! look_at_earlier_outcomes {
+        ($after:expr) => {{
+            use futures_util::FutureExt;
+            let mut k = 0;
+            while k < pre_pending.len() {
+                match pre_pending[k].1.as_mut().now_or_never() {
+                    None => k += 1,
+                    Some(Ok(fe2o3_amqp::types::messaging::Outcome::Accepted(_))) => {
+                        sim::probe("outstanding-outcome-intact-after-cancellations");
+                        pre_pending.remove(k);
+                    }
+                    Some(other) => {
+                        let u = pre_pending[k].0;
+                        sim::violation_sig(
+                            "earlier-outcome-corrupted",
+                            if sig.get() == SIG_PARTIAL { SIG_PARTIAL } else { "" },
+                            format!("the receiver accepts every delivery; after {} ({} cancelled sends so far) the outcome of the earlier message {} resolved as {:?}", $after, cancelled_uids.len(), u, other.map_err(|e| format!("{:?}", e))),
+                        );
+                        return;
+                    }
+                }
+            }
+        }};
+    }
     for j in 0..N_MSGS {
         let is_last = j + 1 == N_MSGS;
+        send_order.retain(|x| *x != 100 + j);
         let cancel = if plan.enumerated { j == plan.target && !is_last } else { !is_last && choice(3) != 0 };
         if cancel {
-            let (k, at_wake) = if plan.enumerated { (plan.k, plan.at_wake) } else { (1 + choice(5), choice(2) == 1) };
+            let (mut k, mut at_wake) = if plan.enumerated { (plan.k, plan.at_wake) } else { (1 + choice(5), choice(2) == 1) };
+            // fault: the client's session engine is not scheduled for a few milliseconds (a busy
+            // worker thread). A batchable send fills the link -> session channel, the send that is
+            // going to be cancelled registers and waits for room behind it, and whatever the peer
+            // settles in the meantime is applied when the engine runs again - before or after the
+            // cancelled send is dropped
+            if !pre_pending.is_empty() && choice(2) == 0 {
+                sim::stall_task("session-engine", 1, pick(&[3u64, 10, 30]));
+                let filler = message(60 + j, 1);
+                match sim::op(&format!("send_batchable (filler) {}", j), s.send_batchable(filler.clone())).await {
+                    Some(Ok(f)) => {
+                        pre_pending.push((60 + j, Box::pin(f)));
+                        pre.push(filler);
+                        send_order.push(60 + j);
+                    }
+                    Some(Err(e)) => {
+                        sim::violation_sig("send-error", sig.get(), format!("send_batchable (filler) {} failed: {:?}", j, e));
+                        return;
+                    }
+                    None => return,
+                }
+                if !plan.enumerated {
+                    k = 1 + choice(2);
+                    at_wake = true;
+                }
+                sim::probe("cancelled-send-behind-a-stalled-session-engine");
+            }
+            send_order.push(100 + j);
             let before = send_counters();
             let r = if by_ref {
                 sim::op(&format!("cancelled send_ref {}", j), poll_limited(s.send_ref(&sendables[j as usize]), k, at_wake)).await
@@ -758,6 +816,15 @@ async fn run_send(enumerated: bool) {
                     let c = classify_send_drop(before, after, need);
                     if sim::tracing() {
                         sim::trace_line(format!("send {} dropped: counters {:?} -> {:?}, need {} link-level transfers, last no_room {} last queued {}: classified `{}`", j, before, after, need, sim::sched_point_last("observe.sender.transfer.no_room"), sim::sched_point_last("observe.sender.transfer_queued"), c));
+                    }
+                    if c == SIG_CREDIT_TAKEN {
+                        use futures_util::FutureExt;
+                        sim::probe("cancelled-send-was-parked-for-room");
+                        if !pre_pending.is_empty() {
+                            sim::probe("cancelled-send-was-parked-for-room-with-earlier-deliveries-outstanding");
+                        }
+                        // (peek: a resolved outcome is judged right after this send)
+                        let _ = &mut pre_pending;
                     }
                     if !c.is_empty() {
                         // the recorded finding's precondition has occurred: what follows from it
@@ -782,6 +849,7 @@ async fn run_send(enumerated: bool) {
                 None => return,
             }
         } else {
+            send_order.push(100 + j);
             let r = if by_ref { sim::op(&format!("send_ref {}", j), s.send_ref(&sendables[j as usize])).await } else { sim::op(&format!("send {}", j), s.send(msgs_v[j as usize].clone())).await };
             match r {
                 Some(Ok(_)) => {}
@@ -792,6 +860,7 @@ async fn run_send(enumerated: bool) {
                 None => return,
             }
         }
+        look_at_earlier_outcomes!(format!("send {}", j));
     }
     if !cancelled_uids.is_empty() {
         sim::mark_nontrivial();
@@ -807,15 +876,23 @@ async fn run_send(enumerated: bool) {
     // what arrived: in sending order, each at most once, intact; everything that was not cancelled arrived
     let got = received.borrow();
     let mut last = 0u64;
+    let mut last_pos: Option<usize> = None;
     for m in got.iter() {
         let u = msgs::uid_of(m).unwrap_or(0);
         if u == last || got.iter().filter(|x| msgs::uid_of(x) == Some(u)).count() > 1 {
             sim::violation_sig("duplicate-delivery", sig.get(), format!("message {} arrived more than once (cancelled sends: {:?})", u, cancelled_uids));
             return;
         }
-        if u < last {
-            sim::violation_sig("reordered-delivery", sig.get(), format!("message {} arrived after {} (cancelled sends: {:?})", u, last, cancelled_uids));
-            return;
+        // in the order in which the messages were handed to the link
+        let pos = send_order.iter().position(|x| *x == u);
+        if let (Some(p), Some(lp)) = (pos, last_pos) {
+            if p < lp {
+                sim::violation_sig("reordered-delivery", sig.get(), format!("message {} arrived after {} (order of sending {:?}, cancelled sends: {:?})", u, last, send_order, cancelled_uids));
+                return;
+            }
+        }
+        if pos.is_some() {
+            last_pos = pos;
         }
         last = u;
         match msgs_v.iter().chain(pre.iter()).find(|x| msgs::uid_of(x) == Some(u)) {
@@ -848,13 +925,13 @@ async fn run_send(enumerated: bool) {
     drop(got);
     // the receiver accepted everything it got: the outcomes of the earlier batchable sends say so,
     // whatever was cancelled after them
-    for (u, f) in pre_futs {
+    for (u, f) in pre_pending {
         match sim::op(&format!("outcome of outstanding batchable {}", u), f).await {
             Some(Ok(fe2o3_amqp::types::messaging::Outcome::Accepted(_))) => sim::probe("outstanding-outcome-intact-after-cancellations"),
             Some(other) => {
                 sim::violation_sig(
                     "earlier-outcome-corrupted",
-                    sig.get(),
+                    if sig.get() == SIG_PARTIAL { SIG_PARTIAL } else { "" },
                     format!("the receiver accepted message {}; after {} cancelled sends its outcome resolved as {:?}", u, cancelled_uids.len(), other.map_err(|e| format!("{:?}", e))),
                 );
                 return;
